@@ -441,6 +441,7 @@ func (c *Ctx) evalCallWithArgs(x *ast.CallExpr, s *State, pre []Value) Value {
 	}
 	_ = recvT
 	args := evalArgs()
+	c.atClauses(s, fmt.Sprintf("call %s#%d", calleeShortName(x), c.callOrd[x]), x.Pos())
 	return c.callFunc(x, s, callee, recv, args)
 }
 
